@@ -87,7 +87,6 @@ type VerifDump struct {
 	QPS           uint32
 	Burst         uint32
 	RemoteConfig  proxyv1alpha1.RateLimitItemConfiguration
-	Applied       proxyv1alpha1.RateLimitItemConfiguration
 	Str           string
 }
 
@@ -99,7 +98,6 @@ func VerifDumpRemote(c FlowControlCache) VerifDump {
 	}
 	d.HasRemote = true
 	d.RemoteConfig = r.remoteConfig
-	d.Applied = r.appliedConfig
 	if r.GlobalCounterFlowControl == nil {
 		return d
 	}
